@@ -459,6 +459,8 @@ def shell_desc(rng, models=None, cone=None, mmax=4, nmax=3, springs=True):
         d['stack'] = [angle(rng) for _ in range(n)]
         d['plyt'] = h / n
         d['laminaprop'] = list(mat)
+        if rng.random() < 0.1:
+            d['force_ortho'] = True       # ConeCyl.force_orthotropic_laminate: the 16/26 couplings are dropped from the laminate matrix
     d['m1'] = int(rng.integers(1, mmax + 1)); d['m2'] = int(rng.integers(1, mmax + 1)); d['n2'] = int(rng.integers(1, nmax + 1))
     d['s'] = int(rng.choice([10, 20, 40]))
     if springs:
@@ -483,6 +485,8 @@ def build_shell(d):
     for k, v in d.items():
         if k.startswith('k') and (k.endswith('Bot') or k.endswith('Top')):
             setattr(cc, k, v)
+    if d.get('force_ortho'):
+        cc.force_orthotropic_laminate = True
     for k in ('P', 'P_inc', 'Fc', 'T', 'T_inc', 'pdC', 'pdT', 'uTM', 'thetaTdeg', 'nx', 'nt', 'ni_method', 'ni_num_cores'):
         if k in d:
             setattr(cc, k, d[k])
